@@ -1,6 +1,7 @@
 package harness
 
 import (
+	"strings"
 	"fmt"
 	"testing"
 	"time"
@@ -37,6 +38,9 @@ func probeAllPairs(c *Cluster, tag string) (failed []string, sent int) {
 			}
 			m1 := fmt.Sprintf("probe|%s|pkt|%s>%s", tag, a.Name, b.Name)
 			m2 := fmt.Sprintf("probe|%s|tcp|%s>%s", tag, a.Name, b.Name)
+			if h := tag + a.Name + b.Name; (int(h[len(h)-1])+int(h[len(h)-3])+len(exps))%2 == 0 {
+				m2 += "|" + strings.Repeat("large-reliable-payload-", 2000) // ~46 KB on the stream
+			}
 			_ = a.ML().SendBestEffort(target, []byte(m1))
 			_ = a.ML().SendReliable(target, []byte(m2))
 			exps = append(exps, exp{b, m1, a.Name + ">" + b.Name + "/packet"}, exp{b, m2, a.Name + ">" + b.Name + "/stream"})
